@@ -66,7 +66,7 @@ def d2_collision_check(ctx, rm: REModel):
     rd = rm.b("read")
     g = q.cfg(rd, q.quiet_policy(rm.repo))
     loops = [s for s in A.walk_stmts(rd.node.body) if isinstance(s, ast.For) and A.norm(s.iter) == "self._objs_read"]
-    ok = bool(loops) and any(isinstance(x, ast.If) and "&" in A.norm(x.test) and any(isinstance(y, ast.Raise) for y in x.body) for x in A.walk_stmts(loops[0].body))
+    ok = bool(loops) and any(isinstance(x, ast.If) and "&" in A.norm(q.expand(rd.node, x.test)) and any(isinstance(y, ast.Raise) for y in x.body) for x in A.walk_stmts(loops[0].body))
     ctx.ob("C15.D2-key-collision-rejected", cname(rd, None, "overlapping data keys with any object already read -> raise"), ok,
            "" if ok else "two objects with overlapping keys can be read into one event (one reading overwrites the other)", where=where(rd, rd.node))
     if loops:
@@ -103,6 +103,20 @@ def d4_rejected_inside_bundle(ctx, rm: REModel):
     loops = [s for s in A.walk_stmts(cp.node.body) if isinstance(s, ast.For) and "self._run_bundlers" in A.norm(s.iter)]
     ok = bool(loops) and any(isinstance(x, ast.If) and A.norm(x.test).endswith(".bundling") and any(isinstance(y, ast.Raise) and "IllegalMessageSequence" in A.norm(y) for y in x.body)
                              for x in A.walk_stmts(loops[0].body))
+    if not ok:
+        # the same test written as `if any(r.bundling for r in self._run_bundlers.values()): raise`
+        for x in A.walk_stmts(cp.node.body):
+            if isinstance(x, ast.If) and isinstance(x.test, ast.Call) and A.call_name(x.test) == "any" and len(x.test.args) == 1 and isinstance(x.test.args[0], (ast.GeneratorExp, ast.ListComp)):
+                ge = x.test.args[0]
+                if len(ge.generators) == 1 and "self._run_bundlers" in A.norm(ge.generators[0].iter) and not ge.generators[0].ifs \
+                        and A.norm(ge.elt) == f"{A.norm(ge.generators[0].target)}.bundling" and any(isinstance(y, ast.Raise) and "IllegalMessageSequence" in A.norm(y) for y in x.body):
+                    ok = True
+    # and it precedes the reset of the checkpoint
+    if ok:
+        gcp = q.cfg(cp, q.quiet_policy(rm.repo))
+        resets = [st for st in A.walk_stmts(cp.node.body) if not isinstance(st, (ast.If, ast.For, ast.While, ast.Try, ast.With)) and "_reset_checkpoint_state" in A.norm(st)]
+        raises = [st for st in A.walk_stmts(cp.node.body) if isinstance(st, ast.Raise) and "IllegalMessageSequence" in A.norm(st)]
+        ok = bool(resets) and bool(raises) and raises[0].lineno < resets[0].lineno
     ctx.ob("C15.D4-checkpoint-configure-rejected-in-bundle", cname(cp, None, "checkpoint inside any open bundle raises"), ok, "" if ok else "a checkpoint inside a bundle is accepted", where=where(cp, cp.node))
     cf = rm.handler("configure")
     g = q.cfg(cf, q.quiet_policy(rm.repo))
